@@ -99,6 +99,7 @@ class Ledger:
         self.renamed = {}    # did -> original label
         self.ws_removed = set()   # holes with a data child removed through the workspace since the last re-open
         self.dropped_pg_names = set()  # names of groups removed since the last re-open
+        self.dead_renamed = {}    # removed data that had been renamed: did -> original label
 
     def clone(self):
         return copy.deepcopy(self)
@@ -207,6 +208,8 @@ class Ledger:
 
     def _remove_data(self, did):
         d = self.data.pop(did)
+        if did in self.renamed:
+            self.dead_renamed[did] = self.renamed[did]
         pg = d["pg"]
         if pg is not None and pg in self.pgs:
             m = self.pgs[pg]["members"]
@@ -233,7 +236,7 @@ class Ledger:
 
 
 # ----------------------------------------------------------------------------- generation
-LENS = [0, 0, 1, 1, 2, 3, 5]
+LENS = [0, 1, 1, 2, 2, 3, 5]
 
 
 def _vals(rng, n, base):
@@ -876,7 +879,9 @@ def _check_snapshot(led, sn, where, fails, readback=True):
                 continue
             if lid is not None and lid < 10:
                 continue
-            if d not in led.data or led.data[d]["h"] != o:
+            if d in led.dead_renamed and led.dead_renamed[d] == lid:
+                add("rename-leaves-old-label-row", f"label {lab!r} row {r}: data {d} was renamed, then removed")
+            elif d not in led.data or led.data[d]["h"] != o:
                 add("stale-data-row", f"label {lab!r} row {r}: data {d} is not a live data set of hole {o}")
             elif led.data[d]["name"] != lid:
                 if led.renamed.get(d) == lid:
@@ -918,6 +923,7 @@ def _check_snapshot(led, sn, where, fails, readback=True):
                 if gotk != wantk:
                     ren = {d for d in led.hole_data(r["id"]) if d in led.renamed}
                     stale = [kv for kv in gotk if kv not in wantk]
+                    ren |= set(led.dead_renamed)
                     if ren and all(v in ren for _, v in stale) and all(d in ren for _, d in wantk if (_, d) not in gotk):
                         add("rename-leaves-old-property-key", f"{tag}: hole {r['id']} keys {gotk} != {wantk}")
                     else:
@@ -938,42 +944,47 @@ def _check_view(led, view, sn, where, fails):
     if "error" in view:
         fails.append({"key": "table-view-raises", "what": f"{where}: drillholes_tables raised {view['error']}"})
         return
+    # states in which depth_table is known to give up (one recorded finding): an empty group, an empty depth array, a renamed
+    # member, a group removed since the last re-open, a depth array resized without rewriting the other members
+    degenerate = []
+    if any(led.depth_of(p) is None for p in led.pgs):
+        degenerate.append("empty group")
+    if any(r[1] == 0 for lab, t in sn["tabs"].items() if (label_id(lab) or 0) in range(10, 100) for r in t["rows"]):
+        degenerate.append("empty depth array")
+    if led.renamed or led.dead_renamed:
+        degenerate.append("renamed data")
+    if led.dropped_pg_names:
+        degenerate.append("group removed since re-open")
+    if any(len(led.data[d]["vals"]) != len(led.data[led.depth_of(p)]["vals"]) for p in led.pgs if led.depth_of(p) is not None
+           for d in led.pgs[p]["members"]):
+        degenerate.append("resized depth")
     for pname in sorted({x["name"] for x in led.pgs.values()}):
-        groups = [p for p in led.pgs if led.pgs[p]["name"] == pname]
+        full = [p for p in led.pgs if led.pgs[p]["name"] == pname and led.depth_of(p) is not None]
         tab = view.get(f"pg{pname}")
         if tab is None:
-            fails.append({"key": "table-view-missing", "what": f"{where}: no table for group name pg{pname}"})
+            if not degenerate:
+                fails.append({"key": "table-view-missing", "what": f"{where}: no table for group name pg{pname}"})
             continue
-        empty = [p for p in groups if led.depth_of(p) is None]
-        full = [p for p in groups if led.depth_of(p) is not None]
-        renamed = any(d in led.renamed for p in groups for d in led.pgs[p]["members"])
         labels = {led.data[led.depth_of(p)]["name"] for p in full}
-        zero = any(r[1] == 0 for lab in labels for r in sn["tabs"].get(label_name(lab), {"rows": []})["rows"])
-        ragged = any(len(led.data[d]["vals"]) != len(led.data[led.depth_of(p)]["vals"]) for p in full for d in led.pgs[p]["members"])
+        holes_p = {led.pgs[p]["h"]: p for p in full}
+        all_names = {led.data[d]["name"] for p in full for d in led.pgs[p]["members"]}
+        # the implementation finds a hole's column by data name + Object ID: a data set of that name in ANOTHER group of the hole
+        # (or a depth name shared with another group) is picked up
+        by_name_clash = (len(labels) > 1
+                         or any(x["name"] in all_names and x["pg"] != holes_p.get(x["h"]) for x in led.data.values()))
         if "error" in tab:
             typ = tab["error"].split(":")[0]
-            if typ == "AttributeError" and empty:
-                key = "table-view-raises-with-empty-group"
-            elif typ == "KeyError" and renamed:
-                key = "table-view-raises-after-rename"
-            elif typ in ("IndexError", "ValueError") and zero:
-                key = "table-view-raises-on-empty-depth"
-            elif typ == "AttributeError" and pname in led.dropped_pg_names:
-                key = "table-view-raises-with-removed-group"
-            else:
-                key = "table-view-raises:" + typ
-            fails.append({"key": key, "what": f"{where}: depth_table of pg{pname} raised {tab['error']}"})
+            key = ("table-view-raises-in-degenerate-state" if degenerate
+                   else "table-view-looks-up-by-name-not-by-group" if by_name_clash else "table-view-raises:" + typ)
+            fails.append({"key": key, "what": f"{where}: depth_table of pg{pname} raised {tab['error']} (state: {degenerate})"})
             continue
-        if ragged or renamed or empty:
-            continue   # no expectation: a depth array was resized and not all members were rewritten yet / degenerate states reported elsewhere
+        if degenerate:
+            continue
         cols = tab["cols"][1:]
         assoc = cols[0] if cols else None
-        holes_p = {led.pgs[p]["h"]: p for p in full}
         listed = [r[2] for r in sorted(sn["tabs"].get(assoc, {"rows": []})["rows"], key=lambda r: r[0])] if assoc else []
         names = sorted({label_name(led.data[d]["name"]) for p in full for d in led.pgs[p]["members"]} - {assoc})
-        outside = any(label_name(led.data[d]["name"]) in names and led.data[d]["pg"] != holes_p[h]
-                      for h in holes_p for d in led.hole_data(h))
-        mixed = len(labels) > 1 or {label_name(x) for x in labels} != {assoc} or any(h not in holes_p for h in listed) or outside
+        mixed = by_name_clash or {label_name(x) for x in labels} != {assoc} or any(h not in holes_p for h in listed)
         exp = []
         for h in listed:
             if h not in holes_p:
